@@ -138,7 +138,7 @@ theorem return_event_after_length_breaks_content_length (F : Facts13)
   ⟨⟨false, 100, 7⟩,
    { wsdl := none, soapOut := false, soapIn := false, preReject := false, readsBody := false,
      contentLength := none, docLen := 0, faultLen := 9,
-     intended := .success ⟨none, .notGen, false, [5], true⟩, onReturn := some ⟨[2], true⟩, onException := none,
+     intended := .success ⟨none, .notGen, false, .server, [5], true⟩, onReturn := some ⟨[2], true⟩, onException := none,
      aux := .none, auxOnErrors := false, userHeaders := [],
      closeListener := .none, serverSkipsClose := false, faultBody := none, faultIter := .list },
    5, by simp [handle, process, intendedResult, afterUser, withAux, withReturnListener, successOut, hb, ht, hj, finish,
@@ -201,11 +201,23 @@ theorem aux_guard_that_is_not_catch_all_breaks_the_response (F : Facts13) (hg : 
   ⟨⟨false, 100, 7⟩,
    { wsdl := none, soapOut := false, soapIn := false, preReject := false, readsBody := false,
      contentLength := none, docLen := 0, faultLen := 9,
-     intended := .success ⟨none, .notGen, false, [5], true⟩, onReturn := none, onException := none,
+     intended := .success ⟨none, .notGen, false, .server, [5], true⟩, onReturn := none, onException := none,
      aux := .serFail, auxOnErrors := false, userHeaders := [],
      closeListener := .none, serverSkipsClose := false, faultBody := none, faultIter := .list },
    by simp [handle, process, intendedResult, afterUser, withAux, withReturnListener, successOut, hg, hj, finish,
      deliver, auxEvs, hdrEvs, hdrEvsFrom, sum, Result.atServer, atServer]⟩
+
+/-- a failure while the response is being built (a generator body failing after its first yield, an
+    unserialisable value, a failing MTOM packaging) is answered through `handle_error` with the class of
+    what was raised (a Fault keeps its class, anything else is a Server fault) and with the status of
+    that fault unless the user function chose one -/
+theorem late_failure_is_a_fault_of_its_class (cfg : Cfg) (req : Req) (r : Resp)
+    (hs : r.serializeFails = true) (hg : r.gen = .notGen ∨ r.gen = .yields) :
+    afterUser facts13 cfg req r =
+      withAux req req.auxOnErrors true (errorOut facts13 req r.preset r.serFailClass) := by
+  have h1 : facts13.lateErrorKeepsOkStatus = false := by decide
+  have h2 : facts13.auxGuardError = true := by decide
+  rcases hg with hg | hg <;> simp [afterUser, hs, hg, h1, h2]
 
 /-! ### the request-size limit -/
 
@@ -296,7 +308,7 @@ theorem undeclared_overlong_body_is_truncated :
   ⟨⟨true, 10, 8192⟩,
    { wsdl := none, soapOut := false, soapIn := false, preReject := false, readsBody := true,
      contentLength := none, docLen := 10, faultLen := 50,
-     intended := .success ⟨none, .notGen, false, [4], true⟩, onReturn := none, onException := none,
+     intended := .success ⟨none, .notGen, false, .server, [4], true⟩, onReturn := none, onException := none,
      aux := .none, auxOnErrors := false, userHeaders := [],
      closeListener := .none, serverSkipsClose := false, faultBody := none, faultIter := .list },
    [15], by decide⟩
@@ -381,7 +393,7 @@ theorem finalizer_not_cleared_first_closes_twice (F : Facts13) (hf : F.finalizeC
   ⟨⟨false, 100, 7⟩,
    { wsdl := none, soapOut := false, soapIn := false, preReject := false, readsBody := false,
      contentLength := none, docLen := 0, faultLen := 9,
-     intended := .success ⟨none, .notGen, false, [5], true⟩, onReturn := none, onException := none,
+     intended := .success ⟨none, .notGen, false, .server, [5], true⟩, onReturn := none, onException := none,
      aux := .none, auxOnErrors := false, userHeaders := [],
      closeListener := .ctxClosedRaises, serverSkipsClose := false, faultBody := none, faultIter := .list },
    by simp [handle, process, intendedResult, afterUser, withAux, withReturnListener, successOut, hf, ht, hj, hr, finish,
@@ -418,7 +430,7 @@ def exCfg : Cfg := ⟨true, 100, 7⟩
 def exReq : Req :=
   { wsdl := none, soapOut := false, soapIn := false, preReject := false, readsBody := true,
     contentLength := some "20".toList, docLen := 20, faultLen := 30,
-    intended := .success ⟨none, .yields, false, [1, 2, 3], true⟩, onReturn := none, onException := none,
+    intended := .success ⟨none, .yields, false, .server, [1, 2, 3], true⟩, onReturn := none, onException := none,
      aux := .none, auxOnErrors := false, userHeaders := [],
      closeListener := .none, serverSkipsClose := false, faultBody := none, faultIter := .list }
 
@@ -463,6 +475,15 @@ example : handle facts13 exCfg { exReq with intended := .validationError, faultB
       [100, 100, 100] none =
     [.read 7 7, .read 7 7, .read 6 6, .startResponse 400 (some .client) (some 65), .returned, .chunk 2 true, .chunk 1 true,
      .chunk 60 true, .chunk 2 true, .ctxClosed, .wsgiClose] := by decide +kernel
+-- a `before_deserialize` handler that raises something that is not a Fault: a Server fault, no user code
+example : handle facts13 exCfg { exReq with intended := .inputHandlerFails } [100, 100, 100] none =
+    [.read 7 7, .read 7 7, .read 6 6, .startResponse 500 (some .server) (some 30), .returned, .chunk 30 true,
+     .ctxClosed, .wsgiClose] := by decide +kernel
+-- a Fault raised by a generator body after its first yield keeps its class (hypotheses of
+-- `late_failure_is_a_fault_of_its_class`)
+example : handle facts13 exCfg { exReq with intended := .success ⟨none, .yields, true, .notFound, [1], false⟩ } [100, 100, 100] none =
+    [.read 7 7, .read 7 7, .read 6 6, .user, .startResponse 404 (some .notFound) (some 30), .returned, .chunk 30 true,
+     .ctxClosed, .wsgiClose] := by decide +kernel
 -- a non-numeric CONTENT_LENGTH is a Client fault
 example : handle facts13 exCfg { exReq with contentLength := some "abc".toList } [200] none =
     [.startResponse 400 (some .client) (some 30), .returned, .chunk 30 true, .ctxClosed, .wsgiClose] := by
@@ -477,7 +498,7 @@ example : handle facts13 ⟨false, 100, 7⟩ exReq [100, 100, 100] none =
     [.read 7 7, .read 7 7, .read 6 6, .user, .startResponse 200 none (some 6), .returned, .chunk 6 true,
      .ctxClosed, .wsgiClose] := by decide +kernel
 -- an aborted generator body
-example : handle facts13 exCfg { exReq with intended := .success ⟨some 201, .notGen, false, [1, 2, 3], false⟩ } [9, 9, 9] (some 0) =
+example : handle facts13 exCfg { exReq with intended := .success ⟨some 201, .notGen, false, .server, [1, 2, 3], false⟩ } [9, 9, 9] (some 0) =
     [.read 7 7, .read 7 7, .read 6 6, .user, .startResponse 201 none none, .returned, .ctxClosed, .wsgiClose] := by
   decide +kernel
 
